@@ -62,6 +62,9 @@ func c11Run(c *core.Case, o *core.Outcome) {
 		if n > p.MaxTicks {
 			n = p.MaxTicks
 		}
+		if f >= time.Minute && n > 3000 {
+			n = 3000
+		}
 		R := time.Duration(n) * f
 		vol := math.Floor(math.Exp(r.Float64() * math.Log(1e7)))
 		if r.IntN(10) == 0 {
@@ -71,9 +74,7 @@ func c11Run(c *core.Case, o *core.Outcome) {
 			// large volumes (e.g. what --peak-rate 1400/s yields) with any tick
 			vol = math.Floor(1e7 * math.Exp(r.Float64()*math.Log(100)))
 		}
-		if f >= time.Minute && n > 3000 {
-			n = 3000
-		}
+
 		var peak time.Duration
 		switch r.IntN(5) {
 		case 0:
